@@ -117,3 +117,31 @@ def observe(rec, fn, fallback):
         rec["err"] = "shape:state cannot be projected (%s: %s)" % (type(e).__name__, str(e)[:60])
         rec["obs"] = fallback
     return rec
+
+
+# ---- the caller edits an answer it was handed, then asks again -----------------------------
+def spoil(x):
+    """edit, in place and to any depth, every list / dictionary of an answer (it belongs to the caller)"""
+    if isinstance(x, list):
+        for y in list(x):
+            spoil(y)
+        del x[:]
+        x.append("spoiled")
+    elif isinstance(x, dict):
+        for y in list(x.values()):
+            spoil(y)
+        x.clear()
+    elif isinstance(x, tuple):
+        for y in x:
+            spoil(y)
+
+
+AGAIN = "again after the caller edited the first answer"
+
+
+def again(fn):
+    """fn asked twice, the first answer edited by the caller in between: the second answer is what is recorded"""
+    def g():
+        spoil(fn())
+        return fn()
+    return g
